@@ -569,6 +569,12 @@ func TestVerif_C10(t *testing.T) {
 		id++
 		o.emit(c)
 	}
+	// calls that are already pending when the stream is closed: a synchronous read parked in readMore
+	for _, sc := range []string{"pending-read-local-close", "pending-read-peer-close", "pending-read-local-close"} {
+		c := c10PendingCase(c10Case{ID: id, Mode: "sync", Scenario: sc, DelayUs: r.intn(3000)})
+		id++
+		o.emit(c)
+	}
 	// last (a failing one leaves a lost goroutine behind): Close() inside OnData whose CAS cannot succeed
 	for _, sc := range []string{"inside-twice", "inside-after-peer-close"} {
 		c := c10InsideCase(c10Case{ID: id, Mode: "callback", Scenario: sc})
@@ -576,6 +582,98 @@ func TestVerif_C10(t *testing.T) {
 		o.emit(c)
 	}
 	t.Logf("emitted %d cases", id)
+}
+
+// c10PendingCase: synchronous mode; a goroutine is parked in a read for more bytes than were sent when the stream is
+// closed — locally, by ANOTHER goroutine (Close() on the same end), or by the peer.  The pending read must return
+// with a closed-stream error (never data it did not get, never block on): "after a local Close every later operation
+// fails with a closed-stream error" includes the operations that are already waiting.
+func c10PendingCase(c c10Case) c10Case {
+	client, server, _ := c10Pair(false, nil)
+	if client == nil {
+		c.Skipped = "session pair could not be created"
+		return c
+	}
+	defer func() {
+		client.Close()
+		server.Close()
+	}()
+	cs, err := client.OpenStream()
+	if err != nil {
+		c.Skipped = "OpenStream failed"
+		return c
+	}
+	if c10Flush(cs, []byte{1, 2, 3}) != nil {
+		c.Skipped = "first Flush failed"
+		return c
+	}
+	ss, err := server.AcceptStream()
+	if err != nil {
+		c.Skipped = "AcceptStream failed"
+		return c
+	}
+	type res struct {
+		n   int
+		err error
+	}
+	done := make(chan res, 1)
+	started := make(chan struct{})
+	go func() {
+		close(started)
+		b, err := ss.BufferReader().ReadBytes(10) // only 3 bytes were sent: parks in readMore
+		done <- res{len(b), err}
+	}()
+	<-started
+	time.Sleep(20*time.Millisecond + time.Duration(c.DelayUs)*time.Microsecond)
+	select {
+	case r := <-done:
+		c.Skipped = fmt.Sprintf("the read returned before the close (%d bytes, %v)", r.n, r.err)
+		return c
+	default:
+	}
+	local := c.Scenario == "pending-read-local-close"
+	t0 := time.Now()
+	if local {
+		_ = ss.Close() // from this goroutine; the reader is another one
+	} else {
+		_ = cs.Close()
+	}
+	or := map[string]bool{}
+	select {
+	case r := <-done:
+		c.Obs.CloserRead = c20ErrClassT(r.err)
+		want := "ErrStreamClosed"
+		if !local {
+			want = "ErrEndOfStream"
+		}
+		if r.err == nil {
+			or[fmt.Sprintf("pending: the read that was waiting for 10 bytes returned %d bytes without error after the close", r.n)] = true
+		} else if c.Obs.CloserRead != want && c.Obs.CloserRead != "ErrStreamClosed" {
+			or["pending: the read that was waiting when the stream was closed failed with "+c.Obs.CloserRead] = true
+		}
+	case <-time.After(2 * time.Second):
+		c.Obs.CloserRead = "still-blocked"
+		c.Obs.CloserState = atomic.LoadUint32(&ss.state)
+		c.Obs.CloserActive = server.GetActiveStreamCount()
+		who := "another goroutine closed the stream locally (Close() returned"
+		if !local {
+			who = "the peer closed the stream (its Close() returned"
+		}
+		or[fmt.Sprintf("SIG:C10:close-does-not-wake-pending-calls|pending: a read parked in readMore is still blocked 2 s after %s %v ago); state %d, active streams %d: nothing will ever wake it", who, time.Since(t0).Round(time.Millisecond), c.Obs.CloserState, c.Obs.CloserActive)] = true
+		// release the goroutine for the teardown
+		ss.safeCloseNotify()
+		select {
+		case <-done:
+		case <-time.After(time.Second):
+		}
+	}
+	c.Obs.CloserState = atomic.LoadUint32(&ss.state)
+	_ = cs.Close()
+	_ = ss.Close()
+	for k := range or {
+		c.Oracle = append(c.Oracle, k)
+	}
+	return c
 }
 
 // c10GhostCase: deterministic reproduction of "data in flight to a stream the server already closed".
@@ -943,6 +1041,29 @@ func TestVerif_C10S(t *testing.T) {
 			id++
 		}
 	}
+	// an OnData parked in a blocking read when the stream is closed (by closer threads, by the peer): the read is
+	// woken (closeNotifyCh), OnData returns, every Close() returns, the stream ends closed and clean
+	for x := 0; x < 3; x++ {
+		for k := 0; k <= 9; k++ {
+			c := c20Case{ID: id, Kind: "parked-ondata-close", Cmp: true, Cb0: true, Inb: [][]int{{3}}, Needs: []int{4}, Script: [][2]int{{0, 0}}, NCl: 1 + k%2}
+			if k%3 == 2 {
+				c.Inb = [][]int{{3}, {}} // the peer's close races the local one
+			}
+			if k%5 == 4 {
+				c.Script = [][2]int{{0, 1}} // and OnData, once its read has failed, calls Close() itself
+			}
+			c.Picks = []bool{k%2 == 0, k%4 < 2}
+			x, k := x, k
+			if x == 2 {
+				c.Strat = "park-first"
+				run(c, func() vsChooser { return c20ParkFirstChooser(1 + c.NCl) }, 3000)
+			} else {
+				c.Strat = fmt.Sprintf("systematic-preempt(t%d@%d)", x, k)
+				run(c, func() vsChooser { return vsPreemptChooser(newVrand(seed+uint64(id)), x, k+4) }, 3000)
+			}
+			id++
+		}
+	}
 	// synchronous mode (no callbacks): Close racing the peer's close notification, systematically
 	for x := 0; x < 2; x++ {
 		for k := 0; k <= 6; k++ {
@@ -977,9 +1098,9 @@ func TestVerif_C10S(t *testing.T) {
 	// goroutine that close()'s Wait missed (spawned between the CAS on callbackInProcess and wg.Add) — and the
 	// neighbours of that schedule (one step dropped, two adjacent steps swapped)
 	{
-		base := []int{1, 1, 0, 0, 0, 0, 0, 1, 1, 1, 0, 0, 1, 1, 1, 1, 0, 0, 2, 2, 2, 2, 2, 2, 2, 2, 2, 2, 2, 2, 2, 2}
+		base := []int{1, 1, 0, 0, 0, 0, 0, 0, 1, 1, 1, 0, 0, 1, 1, 1, 1, 0, 0, 2, 2, 2, 2, 2, 2, 2, 2, 2, 2, 2, 2, 2, 2}
 		variants := [][]int{base}
-		for p := 0; p < 22; p++ {
+		for p := 0; p < 23; p++ {
 			d := append(append([]int{}, base[:p]...), base[p+1:]...)
 			variants = append(variants, d)
 			if p+1 < len(base) && base[p] != base[p+1] {
